@@ -459,9 +459,9 @@ func ruleC05Anchors(w *World, r *Report) {
 	}
 	r.count("allocation sites evaluated", len(sites))
 	type agg struct {
-		bad   []string
-		where string
-		n     int
+		bad    []string
+		where  string
+		n      int
 		sample string
 	}
 	get := func(m map[string]*agg, k, where string) *agg {
